@@ -128,13 +128,18 @@ func execGreedy(g *graph.DGraph, params graph.Params) {
 		}
 	}
 
-	// reverse edges that point right
+	// reverse edges that point right; they are collected first because reversing an edge
+	// removes it from n.Out, and doing that while ranging over n.Out skips the edge that follows
+	var pointRight []*graph.Edge
 	for _, n := range g.Nodes {
 		for _, e := range n.Out {
 			if p.arcdiag[n] > p.arcdiag[e.To] {
-				e.Reverse()
+				pointRight = append(pointRight, e)
 			}
 		}
+	}
+	for _, e := range pointRight {
+		e.Reverse()
 	}
 }
 
